@@ -2058,3 +2058,24 @@ def P_accum_returned(facts, rule, fn, expect_names=None, min_instances=1):
 			msg = '%s: an exit (line %s) returns something else in position %d of the result although entries may already have been added (path through lines %s) - they are silently dropped' % (short, fu.line_of(b), pos, fu.path_lines(p)[:8])
 		out.append(Result(rule, ok, ('ok:' if ok else 'dropped:') + 'accumulated-returned@%s:%d' % (short, pos), msg, n_good + len(lost), where=facts.where(fu.name, fu.line_of(lost[0][0]) if lost else None)))
 	return out
+
+def expr_local_ids(e, out=None):
+	"""indices of all locals occurring in an expression (a parameter is 1..argc, a user variable any index)"""
+	if out is None:
+		out = set()
+	k = e[0]
+	if k == 'local':
+		out.add(e[1])
+	elif k in ('field', 'deref', 'downcast', 'index', 'ref', 'disc', 'cast'):
+		expr_local_ids(e[1], out)
+	elif k == 'bin':
+		expr_local_ids(e[2], out); expr_local_ids(e[3], out)
+	elif k == 'un':
+		expr_local_ids(e[2], out)
+	elif k == 'call':
+		for a in e[2]:
+			expr_local_ids(a, out)
+	elif k == 'agg':
+		for a in e[3]:
+			expr_local_ids(a, out)
+	return out
